@@ -51,4 +51,63 @@ theorem C15_clone_after_none (cfg : Config σ τ ε) (st : LState σ) (h : st.do
     simp only
     exact ⟨by rw [ih.1]; rfl, ih.2⟩
 
+/-! ## Independence under every interleaving of calls on the original and on the clone -/
+
+/-- Two lexer values driven by one schedule: `true` = a call of `next()` on the first, `false` = on the second. `none` = some call ran out of fuel
+(never, on a compiled machine: see the theorem). -/
+def runSched (cfg : Config σ τ ε) : List Bool → LState σ → LState σ →
+    Option (List (Option (Item τ ε)) × List (Option (Item τ ε)) × LState σ × LState σ)
+  | [], a, b => some ([], [], a, b)
+  | true :: s, a, b =>
+    match next cfg a with
+    | none => none
+    | some (item, a') =>
+      match runSched cfg s a' b with
+      | none => none
+      | some (xs, ys, a'', b'') => some (item :: xs, ys, a'', b'')
+  | false :: s, a, b =>
+    match next cfg b with
+    | none => none
+    | some (item, b') =>
+      match runSched cfg s a b' with
+      | none => none
+      | some (xs, ys, a'', b'') => some (xs, item :: ys, a'', b'')
+
+/-- "each unaffected by calls made on the other", for EVERY schedule: however the calls on the two values are interleaved, each value yields exactly
+the stream it yields when run alone for as many calls as the schedule gives it, and ends in the same state. -/
+theorem C15_interleaving (cfg : Config σ τ ε) (hm : MachineOK cfg) (sched : List Bool) (a b : LState σ)
+    (ha : Ready cfg a) (hb : Ready cfg b) :
+    ∃ xs ys a' b', runSched cfg sched a b = some (xs, ys, a', b') ∧
+      runN cfg (sched.count true) a = (xs.map some, a') ∧ runN cfg (sched.count false) b = (ys.map some, b') ∧
+      Ready cfg a' ∧ Ready cfg b' := by
+  induction sched generalizing a b with
+  | nil => exact ⟨[], [], a, b, rfl, rfl, rfl, ha, hb⟩
+  | cons c s ih =>
+    cases c with
+    | true =>
+      obtain ⟨⟨item, a1⟩, hn⟩ := next_total cfg hm a ha
+      obtain ⟨xs, ys, a', b', h1, h2, h3, h4, h5⟩ := ih a1 b (next_ready cfg hm a ha item a1 hn) hb
+      refine ⟨item :: xs, ys, a', b', ?_, ?_, ?_, h4, h5⟩
+      · simp only [runSched, hn, h1]
+      · rw [List.count_cons_self, NextMore.runN_succ_some cfg _ a item a1 hn, h2]; rfl
+      · rw [List.count_cons_of_ne (by decide)]; exact h3
+    | false =>
+      obtain ⟨⟨item, b1⟩, hn⟩ := next_total cfg hm b hb
+      obtain ⟨xs, ys, a', b', h1, h2, h3, h4, h5⟩ := ih a b1 ha (next_ready cfg hm b hb item b1 hn)
+      refine ⟨xs, item :: ys, a', b', ?_, ?_, ?_, h4, h5⟩
+      · simp only [runSched, hn, h1]
+      · rw [List.count_cons_of_ne (by decide)]; exact h2
+      · rw [List.count_cons_self, NextMore.runN_succ_some cfg _ b item b1 hn, h3]; rfl
+
+/-- The same for the original and its clone (`b = a`) of every compiled well-formed definition, at every clone point. -/
+theorem C15_interleaving_compiled (items : LexerDef) (c : Compiled) (h : compileLexer items = .ok c) (hok : DefOK items)
+    (actions : Nat → Action σ τ ε) (width : Nat → Nat) (input : Option (List Nat)) (st : LState σ)
+    (hr : Ready (c.config actions width input) st) (sched : List Bool) :
+    ∃ xs ys a' b', runSched (c.config actions width input) sched st st = some (xs, ys, a', b') ∧
+      runN (c.config actions width input) (sched.count true) st = (xs.map some, a') ∧
+      runN (c.config actions width input) (sched.count false) st = (ys.map some, b') :=
+  let ⟨xs, ys, a', b', h1, h2, h3, _, _⟩ :=
+    C15_interleaving _ (compileLexer_machineOK items c h hok actions width input) sched st st hr hr
+  ⟨xs, ys, a', b', h1, h2, h3⟩
+
 end Lexgen
